@@ -11,6 +11,7 @@ import (
 	"net/url"
 	"strings"
 	"sync"
+	"time"
 
 	"github.com/gorilla/websocket"
 	"verif.local/ref/netsim"
@@ -26,6 +27,32 @@ type simNet struct {
 	wg     sync.WaitGroup
 	Decide func(l *netsim.Logged, kind netsim.OpKind, index int) netsim.Fault
 	Log    *netsim.PeerLog
+	lns    []net.Listener
+}
+
+// listen serves a peer on a loopback TCP port (cells in which no dial hook is configured use
+// the real network stack, as the repository's own tests do).
+func (n *simNet) listen(serve func(net.Conn)) string {
+	ln, err := net.Listen("tcp", "127.0.0.1:0")
+	if err != nil {
+		panic("simnet: cannot listen on loopback: " + err.Error())
+	}
+	n.lns = append(n.lns, ln)
+	go func() {
+		for {
+			c, err := ln.Accept()
+			if err != nil {
+				return
+			}
+			n.wg.Add(1)
+			go func() {
+				defer n.wg.Done()
+				c.SetDeadline(time.Now().Add(10 * time.Second)) // hang guard only
+				serve(c)
+			}()
+		}
+	}()
+	return ln.Addr().String()
 }
 
 func newSimNet() *simNet {
@@ -70,6 +97,9 @@ func (n *simNet) Finish() {
 	n.mu.Unlock()
 	for _, c := range conns {
 		c.Inner.Close()
+	}
+	for _, ln := range n.lns {
+		ln.Close()
 	}
 	n.wg.Wait()
 }
@@ -166,4 +196,61 @@ func (n *simNet) setupPath(p dialPath, o backendOpts) *websocket.Dialer {
 		be.Serve(c)
 	}
 	return d
+}
+
+// setupLoopback wires real TCP listeners on 127.0.0.1 for a cell without dial hooks and
+// returns the Dialer and the URL to dial.
+func (n *simNet) setupLoopback(proxyScheme string, secure bool, o backendOpts) (*websocket.Dialer, string, string) {
+	pki := netsim.TestPKI()
+	be := &netsim.Backend{Name: "backend", Reply: o.reply, Log: n.Log}
+	if secure {
+		ch := o.certHost
+		if ch == "" {
+			ch = "127.0.0.1"
+		}
+		be.TLS = &tls.Config{Certificates: []tls.Certificate{pki.Leaf(ch, o.untrusted)}, SessionTicketsDisabled: true}
+	}
+	direct := true
+	backendAddr := n.listen(func(c net.Conn) {
+		if !direct {
+			n.Log.Add("net: BACKEND-DIALED-DIRECTLY")
+		}
+		be.Serve(c)
+	})
+	scheme := map[bool]string{false: "ws", true: "wss"}[secure]
+	urlStr := scheme + "://" + backendAddr + "/ws"
+	d := &websocket.Dialer{TLSClientConfig: &tls.Config{RootCAs: pki.Roots}}
+	if proxyScheme == "" {
+		return d, urlStr, backendAddr
+	}
+	direct = false
+	target := func(hostport string) func(net.Conn) {
+		if hostport == backendAddr {
+			return be.Serve
+		}
+		return nil
+	}
+	var paddr string
+	switch proxyScheme {
+	case "http", "https":
+		hp := &netsim.HTTPProxy{Name: "proxy", Reply: o.proxyResp, Log: n.Log, Target: target}
+		if proxyScheme == "https" {
+			hp.TLS = &tls.Config{Certificates: []tls.Certificate{pki.Leaf("127.0.0.1", false)}, SessionTicketsDisabled: true}
+		}
+		paddr = n.listen(hp.Serve)
+	case "socks5":
+		s5 := &netsim.Socks5{Name: "proxy", Log: n.Log, Target: target, Refuse: o.socksRef}
+		paddr = n.listen(s5.Serve)
+	}
+	pu, _ := url.Parse(proxyScheme + "://" + paddr)
+	if o.creds != "" {
+		user, pw, has := strings.Cut(o.creds, ":")
+		if has {
+			pu.User = url.UserPassword(user, pw)
+		} else {
+			pu.User = url.User(user)
+		}
+	}
+	d.Proxy = func(*http.Request) (*url.URL, error) { return pu, nil }
+	return d, urlStr, backendAddr
 }
